@@ -442,6 +442,16 @@ def popJudge (m : Mon) (k : Nat) (cc : World.CliConf) (outs : List Bytes) : Stri
            if v1 ≠ "ok" then v1 else
            let v2 := userNameVerdict sc cc d b
            if v2 ≠ "ok" then v2 else
+           -- C02: what no rewrite rule names and the proxy itself has no hand in - everything but Message-Authenticator, User-Name,
+           -- Tunnel-Password, the TTL attribute and MICROSOFT's Vendor-Specific attributes (vendor id 00 00 01 37, all four octets) -
+           -- reaches the client as the server sent it, in order
+           let tt := m.cfg.opts.ttlType
+           let plain (p : UInt8 × Bytes) : Bool :=
+             !rwTouches sc.rwIn p.1 && !rwTouches cc.rwOut p.1 && p.1 ≠ 80 && p.1 ≠ 1 && p.1 ≠ 69 && p.1 ≠ 0 &&
+             !(tt.2 = 256 && p.1.toNat = tt.1) &&
+             (p.1 ≠ 26 || (p.2.take 4 != [0, 0, 1, 55] && !(tt.2 ≠ 256 && beVal (p.2.take 4) = tt.1)))
+           if (attrsOf b).filter plain != (attrsOf d.rep).filter plain then
+             "bad C02:attributes-of-the-reply-that-no-rule-names-not-delivered-as-the-server-sent-them" else
            if ttlSkips m.cfg.opts.ttlType [sc.rwIn, cc.rwOut] then "ok"
            else ttlVerdict m.cfg.opts.ttlType (World.effAddTtl m.cfg.opts cc.addttl) d.rep b "reply")) "ok"
   verdict
